@@ -941,7 +941,8 @@ TextRecvS == {SE, SA, SAB, SLat, SEmo, BAB, None} \cup L2({SABAB, SEuro, BaAB, S
 StrRecvS == {SE, SA, SABAB, SLat, SEmo, None} \cup L2({SAB, SEuro, SAa, Sub(SAB, "S")})
 PrefsS == {SE, SA, SAB, SB, BA, Tu(<<St(<<120>>), SA>>)} \cup L2({St(<<233>>), St(<<128512>>), None})
 Prefs4 == {SE, SA, SAB, Tu(<<St(<<120>>), SA>>)} \cup L2({SB, BA, St(<<233>>)})
-SIdx4 == {I(0), I(1), I(-1), I(3), Big(1), None} \cup L2({I(2), I(-2), I(5), I(-100), Big(-1), Big(2)})
+SIdx4 == {I(0), I(1), I(-1), I(3), None} \cup L2({Big(1), I(2), I(-2), I(5), I(-100), Big(-1), Big(2)})
+SIdx4b == {I(0), I(1), I(-1), Big(1), None} \cup L2({I(3), I(2), I(-2), I(5), I(-100), Big(-1), Big(2)})
 TextRecv4 == {SE, SAB, SLat, SEmo, BAB, None} \cup L2({SA, SABAB, SEuro, BaAB, Sub(SAB, "S")})
 StrRecv4 == {SE, SABAB, SLat, SEmo, None} \cup L2({SA, SAB, SEuro, SAa, Sub(SAB, "S")})
 Reps == {SE, SA, SAB, None, BA} \cup L2({St(<<8364>>), I(1), SAa})
@@ -998,11 +999,11 @@ ShapeTable == <<
                                   {By(<<99, 100>>), Ba(<<99>>), L12, Li(<<I(256)>>), Li(<<SA>>), SA, None, I(1), Tu(<<I(3)>>), BE, Li(<<I(1), None>>)})>>,
   <<"startswith1", "str", P2(TextRecv, Prefs)>>, <<"endswith1", "str", P2(TextRecv, Prefs)>>,
   <<"startswith2", "str", P3(TextRecvS, PrefsS, SIdx \cup {Fl(4)})>>, <<"endswith2", "str", P3(TextRecvS, PrefsS, SIdx \cup {Fl(4)})>>,
-  <<"startswith3", "str", P4(TextRecv4, Prefs4, SIdx4, SIdx4)>>, <<"endswith3", "str", P4(TextRecv4, Prefs4, SIdx4, SIdx4)>>,
+  <<"startswith3", "str", P4(TextRecv4, Prefs4, SIdx4, SIdx4b)>>, <<"endswith3", "str", P4(TextRecv4, Prefs4, SIdx4, SIdx4b)>>,
   <<"find1", "str", P2(StrRecv, Prefs)>>, <<"rfind1", "str", P2(StrRecv, Prefs)>>, <<"count1", "str", P2(Strs \cup {None, I(1)}, Prefs)>>,
   <<"find2", "str", P3(StrRecvS, PrefsS, SIdx \cup {Fl(4)})>>,
-  <<"find3", "str", P4(StrRecv4, Prefs4, SIdx4, SIdx4)>>, <<"rfind3", "str", P4(StrRecv4, Prefs4, SIdx4, SIdx4)>>,
-  <<"count3", "str", P4(StrRecv4, Prefs4, SIdx4, SIdx4)>>,
+  <<"find3", "str", P4(StrRecv4, Prefs4, SIdx4, SIdx4b)>>, <<"rfind3", "str", P4(StrRecv4, Prefs4, SIdx4, SIdx4b)>>,
+  <<"count3", "str", P4(StrRecv4, Prefs4, SIdx4, SIdx4b)>>,
   <<"replace2", "str", P3(StrRecv \cup {SABAB, SAa}, Reps, Reps)>>,
   <<"replace3", "str", P4(StrRecvS \cup {SAa}, {SE, SA, SAB}, {SE, SB, None}, Counts)>>,
   <<"split0", "str", P1(SplitRecv)>>, <<"split1", "str", P2(SplitRecv, Seps)>>,
